@@ -27,7 +27,8 @@ var canonical = map[string][]string{
 	"go/gomod":                           {"go.mod"},
 	"haskell/cabal":                      {"cabal.project.freeze"},
 	"haskell/stacklock":                  {"stack.yaml.lock"},
-	"java/archive":                       {"app/lib.jar", "app/app.war"},
+	// the file name is an input of java/archive (ParseFilename: name-version, name_version, name.version, build-and-digit versions, nothing before the dash)
+	"java/archive": {"app/lib.jar", "app/app.war", "app/foo_1.2.jar", "app/foo.bar.1.2.3.jar", "app/foo-1.0-b12.jar", "app/-1.0.jar", "app/guava-31.1-jre.jar", "app/noversion.ear"},
 	"java/gradlelockfile":                {"gradle.lockfile", "buildscript-gradle.lockfile"},
 	"java/gradleverificationmetadataxml": {"gradle/verification-metadata.xml"},
 	"java/pomxml":                        {"pom.xml"},
@@ -45,7 +46,9 @@ var canonical = map[string][]string{
 	"os/kernel/module":                   {"lib/modules/6.1.0/kernel/drivers/net/dummy.ko"},
 	"os/kernel/vmlinuz":                  {"boot/vmlinuz", "boot/vmlinuz-6.1.0-13-amd64"},
 	"os/macapps":                         {"Applications/Example.app/Contents/Info.plist"},
-	"os/nix":                             {"nix/store/1ddf3x30m0z6kknmrmapsc7liz8npi1w-perl-5.38.2/bin/ptar", "nix/store/xakcaxsqdzjszym0vji471h0cln5mvsd-unstable-2024-01-01/bin/x"},
+	// the store path is the input of os/nix (hash-name-version; a path without a name or a version is skipped with a warning)
+	"os/nix": {"nix/store/1ddf3x30m0z6kknmrmapsc7liz8npi1w-perl-5.38.2/bin/ptar", "nix/store/xakcaxsqdzjszym0vji471h0cln5mvsd-unstable-2024-01-01/bin/x",
+		"nix/store/1ddf3x30m0z6kknmrmapsc7liz8npi1w-onlyname/bin/x", "nix/store/-/bin/x", "nix/store/nohyphen/bin/x", "nix/store/1ddf3x30m0z6kknmrmapsc7liz8npi1w--1.0/bin/x"},
 	"os/pacman":                          {"var/lib/pacman/local/zlib-1.3.1-2/desc"},
 	"os/portage":                         {"var/db/pkg/app-misc/hello-1.0/PF"},
 	"os/rpm":                             {"var/lib/rpm/Packages", "usr/lib/sysimage/rpm/rpmdb.sqlite", "usr/share/rpm/Packages.db"},
